@@ -25,6 +25,7 @@ let case_nontrivial = ref false
 let classes : (string * string) list ref = ref []   (* (finding id, description) *)
 let know_of : (string, int list) Hashtbl.t = Hashtbl.create 8
 let last_vm : (string * string * string) option ref = ref None
+let cur_rep = ref ""
 
 let report prop what =
   (* a violation inside a listed known-finding class is reported as KNOWN *)
@@ -258,6 +259,16 @@ let ctx_call pre_ fn a =
          report "C07" (Printf.sprintf "rm_clock %s exceeds add_clock %s" (show_vc rm) (show_vc add))
      with Bad _ -> ()) in
   (match fn, a with
+   | ("read" | "read_ctx"), [_; r] when pre_ = "mvreg" && !ty = "mvreg" ->
+       check_ctx r;
+       (* C06/C07: the read context of a register is the join of the clocks of all applied writes *)
+       let know = (try Hashtbl.find know_of !cur_rep with Not_found -> []) in
+       let expect_clock = deps_clock (history_of mvop_sx) (kset know) in
+       let got = vc_sx (field "add_clock" r) in
+       List.iter (fun p ->
+         count p;
+         if not (vc_eqb expect_clock got) then
+           report p (Printf.sprintf "read context %s is not the join of the applied write clocks %s" (show_vc got) (show_vc expect_clock))) ["C06"; "C07"]
    | ("read" | "read_ctx" | "contains" | "get" | "len" | "is_empty"), _ when List.mem pre_ ["orswot"; "mvreg"; "mapmv"; "mapor"; "mapmm"] && pre_ = !ty ->
        (match List.rev a with r :: _ -> check_ctx r | [] -> ())
    | ("iter" | "keys" | "values"), _ when pre_ = !ty ->
@@ -338,6 +349,7 @@ let on_event (case : string) (cmd : string) (x : sx) =
     match x with
     | L [A "taint"; _] -> tainted := true; stat "tainted_cases_events"
     | L (A "pre" :: rest) -> pre := rest
+    | L [A "cmd"; _; _; A r] -> cur_rep := r
     | L [A "op"; A _idx; A author; o; L (A "deps" :: deps)] ->
         hist := (int_of_string author, o, List.map int_sx deps) :: !hist;
         stat "edits";
